@@ -734,6 +734,16 @@ def fresh_names_rule(db, rule):
         return
     ts = [n for n in f.calls() if n.get('cs') == 'std::to_string' and n.get('args')]
     if not ts:
+        # the name generator may be a helper of the normaliser shared by several renamers
+        for c in f.calls():
+            for g in db.callees(f, c):
+                if g.cls == N and g.has_cfg() and any(x.get('cs') == 'std::to_string' and x.get('args') for x in g.calls()):
+                    f = g
+                    ts = [x for x in g.calls() if x.get('cs') == 'std::to_string' and x.get('args')]
+                    break
+            if ts:
+                break
+    if not ts:
         rule.violation('SubstituteArgs:fresh-names', '%s:%d' % (f.file, f.line), 'the renamed variables are no longer numbered')
         return
     arg = f.strip(f.stmts[ts[0]['args'][0]])
